@@ -53,6 +53,7 @@ func genUpdater(rng *rand.Rand) input {
 			in.Global["external-has-lua"] = "true"
 		}
 	}
+	genGlobalAuth(rng, in.Global)
 	nann := 1 + rng.Intn(4)
 	oauth := false
 	for i := 0; i < nann; i++ {
@@ -62,9 +63,7 @@ func genUpdater(rng *rand.Rand) input {
 		}
 		// an empty oauth prefix designates every "/" path: which one findBackend returns
 		// depends on the iteration order of a Go map; not part of this property
-		if v, ok := g.Ann[kPrefix]; ok && strings.TrimRight(v, "/") == "" {
-			delete(g.Ann, kPrefix)
-		}
+		_ = strings.TrimRight
 		switch rng.Intn(6) {
 		case 0, 1:
 			g.Namespace = pick(rng, []string{"team-a", "team-b"})
@@ -344,7 +343,16 @@ func runUpdater(in input, scratch string) *updObs {
 		}
 	}
 	match := matchOf(in.PathType)
-	builder := annotations.NewMapBuilder(p.Log, updDefaults)
+	dflt := map[string]string{}
+	for k, v := range updDefaults {
+		dflt[k] = v
+	}
+	for _, k := range []string{kURL, kPlace, kSignin, kOAuth} {
+		if v, ok := in.Global[k]; ok {
+			dflt[k] = v // as the converter does: built-in defaults overridden by the ConfigMap
+		}
+	}
+	builder := annotations.NewMapBuilder(p.Log, dflt)
 	src := func(i int) *annotations.Source {
 		return &annotations.Source{Namespace: in.Ingresses[i].ns(), Name: in.Ingresses[i].Name, Type: "Ingress"}
 	}
@@ -395,6 +403,9 @@ func runUpdater(in input, scratch string) *updObs {
 		if u := g.Ann[kURL]; u != "" {
 			obs.urls[g.ns()+"|"+u] = classifyURL(u, g.ns(), hc, obs.targets)
 		}
+	}
+	if u := in.Global[kURL]; u != "" {
+		obs.urls["|"+u] = classifyURL(u, "", hc, obs.targets) // no source: no namespace
 	}
 	p.Log.Msgs = nil
 	called := map[string]bool{}
@@ -531,6 +542,7 @@ func classifyURL(u, srcNS string, hc interface {
 }, targets map[string]int) urlInfo {
 	info := urlInfo{ns: true}
 	proto, host, port, _, err := ingutils.ParseURL(u)
+	_ = host
 	if err != nil {
 		info.proto = "other"
 		return info
@@ -570,7 +582,8 @@ func classifyURL(u, srcNS string, hc interface {
 		if f := strings.Split(host, "/"); len(f) == 2 {
 			ns, name = f[0], f[1]
 		}
-		info.xns = ns == srcNS
+		info.ns = ns != ""
+		info.xns = ns == srcNS || srcNS == "" // no cross namespace check without a source
 		if info.port && hc.Backends().FindBackend(ns, name, port) != nil {
 			info.found = true
 			key = "svc:" + ns + "_" + name + "_" + port
@@ -614,7 +627,11 @@ func oracleUpdater(in input, uo *updObs) []fail {
 			if ing < 0 {
 				continue
 			}
-			d := declOf(in.Ingresses[ing].Ann)
+			d := declOf(effAnn(in, in.Ingresses[ing].Ann))
+			urlNS := in.Ingresses[ing].ns()
+			if _, own := in.Ingresses[ing].Ann[kURL]; !own {
+				urlNS = ""
+			}
 			if !d.oauth && d.url == "" {
 				continue
 			}
@@ -633,7 +650,7 @@ func oracleUpdater(in input, uo *updObs) []fail {
 			}
 			// the auth backend name of the path leads to the service its own auth-url names
 			if m := authNameRe.FindStringSubmatch(po.Back.Name); m != nil && d.url != "" {
-				want := uo.urls[in.Ingresses[ing].ns()+"|"+d.url].target
+				want := uo.urls[urlNS+"|"+d.url].target
 				got := -1
 				for _, b := range uo.Binds {
 					if strconv.Itoa(b.Port) == m[1] {
@@ -641,7 +658,7 @@ func oracleUpdater(in input, uo *updObs) []fail {
 					}
 				}
 				if got != want || want == 0 {
-					fs = append(fs, fail{"wrong-auth-service", fmt.Sprintf("%s: %s is bound to target %d, %q of namespace %s resolves to target %d (%v)", id, po.Back.Name, got, d.url, in.Ingresses[ing].ns(), want, uo.Binds)})
+					fs = append(fs, fail{"wrong-auth-service", fmt.Sprintf("%s: %s is bound to target %d, %q of namespace %q resolves to target %d (%v)", id, po.Back.Name, got, d.url, urlNS, want, uo.Binds)})
 				}
 			}
 			for fe, frules := range uo.frontRaw {
@@ -852,11 +869,16 @@ func coqCase(id int, in input, uo *updObs) string {
 	// which annotation set a host-path key belongs to, and where the oauth prefix is served
 	ingOf := map[string]int{}
 	prefixBackend := map[string]int{}
+	prefixByHost := map[string]map[string]int{}
 	for bi, ub := range in.UBackends {
 		for _, up := range ub.Paths {
 			k := hatypes.CreateHostPathLink(up.Host, up.Path, match).Key()
 			ingOf[k] = up.Ing
 			prefixBackend[strings.TrimRight(up.Path, "/")] = bi + 1
+			if prefixByHost[up.Host] == nil {
+				prefixByHost[up.Host] = map[string]int{}
+			}
+			prefixByHost[up.Host][strings.TrimRight(up.Path, "/")] = bi + 1
 		}
 	}
 	var calls, hostsObs, backsObs, rulesObs, horder []string
@@ -911,6 +933,13 @@ func coqCase(id int, in input, uo *updObs) string {
 					hurl, hurlNS = v, in.Ingresses[i].ns()
 				}
 			}
+			// no ingress of the host carries the key: the global ConfigMap answers
+			if v, ok := in.Global[kPlace]; ok && !gotPlace {
+				hplace = placeCoq(declOf(map[string]string{kPlace: v}), true)
+			}
+			if v, ok := in.Global[kURL]; ok && !hasURL {
+				hurl, hurlNS = v, ""
+			}
 			var keys, pobs []string
 			feTag := 0
 			for _, po := range ho.Paths {
@@ -943,8 +972,13 @@ func coqCase(id int, in input, uo *updObs) string {
 				if ing >= 0 {
 					ann = in.Ingresses[ing].Ann
 				}
-				d := declOf(ann)
-				_, hasPlace := ann[kPlace]
+				eff := effAnn(in, ann)
+				d := declOf(eff)
+				_, hasPlace := eff[kPlace]
+				urlNS := ""
+				if _, own := ann[kURL]; own && ing >= 0 {
+					urlNS = in.Ingresses[ing].ns()
+				}
 				tag := 0
 				if last {
 					// the tag stands for the remaining fields of the configuration this call
@@ -953,7 +987,7 @@ func coqCase(id int, in input, uo *updObs) string {
 				}
 				urlCoq := "None"
 				if d.url != "" {
-					urlCoq = c.url(in.Ingresses[ing].ns(), d.url, tag)
+					urlCoq = c.url(urlNS, d.url, tag)
 				}
 				oauth := "None"
 				if v, ok := ann[kOAuth]; ok {
@@ -965,11 +999,18 @@ func coqCase(id int, in input, uo *updObs) string {
 					ob := "None"
 					// findBackend looks for the prefix among the paths whose backend is in the
 					// namespace of the declaration; the application backends are in "default"
-					if bi, ok := prefixBackend[prefix]; ok && in.Ingresses[ing].ns() == "default" {
+					// ... the host of the path first, then the hosts in sorted order
+					bi, ok := prefixByHost[po.Host][prefix]
+					for _, h := range hostNames {
+						if !ok {
+							bi, ok = prefixByHost[h][prefix]
+						}
+					}
+					if ok && in.Ingresses[ing].ns() == "default" {
 						ob = "(Some " + hx.N(bi) + ")"
 					}
-					oauth = fmt.Sprintf("(Some {| o_impl := %s; o_backend := %s; o_prefix := %s; o_tag := %s |})",
-						hx.Bool(v == "oauth2_proxy" || v == "oauth2-proxy"), ob, hx.N(c.pfx(prefix+"/")), hx.N(tag))
+					oauth = fmt.Sprintf("(Some {| o_impl := %s; o_prefix_ok := %s; o_backend := %s; o_prefix := %s; o_tag := %s |})",
+						hx.Bool(v == "oauth2_proxy" || v == "oauth2-proxy"), hx.Bool(prefix != ""), ob, hx.N(c.pfx(prefix+"/")), hx.N(tag))
 				}
 				ds = append(ds, fmt.Sprintf("{| d_id := %s; d_url := %s; d_place := %s; d_host := %s; d_key := %s; d_oauth := %s |}",
 					hx.N(pathNum(po.ID)), urlCoq, placeCoq(d, hasPlace), hx.N(c.hostIdx[po.Host]), hx.N(c.key(po.Path)), oauth))
